@@ -132,7 +132,7 @@ def rule_mirrorpipe(ctx):
                 n += 1
                 yield ob(R, f, "%s:%s@%d" % (f.qual, name, k), good, "reference-side %s and estimate-side %s are mirror images" % (tm.show(Rk[0], 2), tm.show(Ek[0], 2)) if good else "combining node %s receives a reference value %s and an estimate value %s that were not produced by the same pipeline" % (name, tm.show(Rk[0], 3), tm.show(Ek[0], 3)))
     for q, why in sorted(ASYM_BY_DESIGN.items()):
-        f = ctx.program.func(q, R)
+        f = ctx.program.func(q, R, resigned_ok=True)
         yield ob(R, f, "%s:reference-driven" % q, True, "reviewed: %s" % why)
     # resampling is the identity when the time bases coincide
     f = ctx.program.func("melody.resample_melody_series", R)
